@@ -146,7 +146,13 @@ def run(b, ps, tier, seed):
         if len(samples) < 5 and strs and k == "seed" and len(strs[0]) > 30:
             samples.append({"id": i, "term_printed": strs[0][:300], "round_trip": bits})
 
-    for i, k, t, x in find_bad[:3]:
+    seen_ids = set()
+    find_first = []
+    for y in find_bad:
+        if y[0] not in seen_ids:
+            seen_ids.add(y[0])
+            find_first.append(y)
+    for i, k, t, x in find_first[:3]:
         kind = x[0]
 
         def pred(txt, _kind=kind):
